@@ -6,6 +6,7 @@ import (
 	"fmt"
 	"math"
 	"math/rand"
+	"sort"
 	"strings"
 	"testing"
 	"time"
@@ -179,7 +180,11 @@ func TestVerifC01(t *testing.T) {
 			uid++
 			ts := win.Add(time.Duration(i) * time.Millisecond * 5)
 			tags := make([]*modelv1.TagValue, len(c01Tags))
-			tags[0] = tStr(fmt.Sprintf("c%d-s%d", c, i%nSeries))
+			ser := i % nSeries
+			if c%3 != 0 {
+				ser = r.Intn(nSeries) // irregular arrival: time ranges of series nest and overlap inside a part
+			}
+			tags[0] = tStr(fmt.Sprintf("c%d-s%d", c, ser))
 			tags[1] = tInt(uid)
 			for j := 2; j < len(c01Tags); j++ {
 				tags[j] = genTag(r, c01Tags[j].Type)
@@ -338,6 +343,74 @@ func TestVerifC01(t *testing.T) {
 				if _, ok := model[u]; !ok {
 					s.Violation("c01:"+kind+":row-never-acknowledged-returned:"+ph, map[string]any{"case": c, "uid": u})
 					break
+				}
+			}
+		}
+		// sub-windows whose edges are stored timestamps (part / primary-block / block time pruning): ids only
+		if nAck > 1 {
+			var tsList []int64
+			byTS := map[int64]int64{}
+			for u, w := range model {
+				tsList = append(tsList, w.ts)
+				byTS[w.ts] = u
+			}
+			sort.Slice(tsList, func(i, j int) bool { return tsList[i] < tsList[j] })
+			tails := min(len(tsList), min(nSeries+1, 8))
+			for k := 0; k < 4+2*tails; k++ {
+				a, b := r.Intn(len(tsList)), r.Intn(len(tsList))
+				switch {
+				case k < tails: // every window that starts at one of the last few points and runs to the end
+					a, b = len(tsList)-1-k, len(tsList)-1
+				case k < 2*tails: // and the mirror image at the head
+					a, b = 0, k-tails
+				}
+				if a > b {
+					a, b = b, a
+				}
+				wtr := &modelv1.TimeRange{Begin: timestamppb.New(time.Unix(0, tsList[a])), End: timestamppb.New(time.Unix(0, tsList[b]))}
+				want := map[int64]bool{}
+				for _, tsv := range tsList[a : b+1] {
+					want[byTS[tsv]] = true
+				}
+				got := map[int64]bool{}
+				uproj := &modelv1.TagProjection{TagFamilies: []*modelv1.TagProjection_TagFamily{{Name: "default", Tags: []string{"uid"}}}}
+				if kind == "measure" {
+					resp, err := sv.queryMeasure(&measurev1.QueryRequest{Groups: []string{"gm"}, Name: "m", TimeRange: wtr, TagProjection: uproj, Limit: uint32(n + 100)})
+					if err != nil {
+						continue
+					}
+					for _, dp := range resp.DataPoints {
+						for _, tf := range dp.TagFamilies {
+							for _, tg := range tf.Tags {
+								got[tg.Value.GetInt().GetValue()] = true
+							}
+						}
+					}
+				} else {
+					resp, err := sv.queryStream(&streamv1.QueryRequest{Groups: []string{"gs"}, Name: "st", TimeRange: wtr, Projection: uproj, Limit: uint32(n + 100)})
+					if err != nil {
+						continue
+					}
+					for _, e := range resp.Elements {
+						for _, tf := range e.TagFamilies {
+							for _, tg := range tf.Tags {
+								got[tg.Value.GetInt().GetValue()] = true
+							}
+						}
+					}
+				}
+				s.Count("c01."+kind+".window_queries", 1)
+				for u := range want {
+					if !got[u] {
+						s.Violation("c01:"+kind+":acknowledged-row-missing-in-time-window", map[string]any{"case": c, "uid": u, "window_ns": []int64{tsList[a], tsList[b]}, "row_ts": model[u].ts, "expected": len(want), "returned": len(got), "series": nSeries})
+						break
+					}
+				}
+				for u := range got {
+					if !want[u] {
+						s.Violation("c01:"+kind+":row-outside-time-window-returned", map[string]any{"case": c, "uid": u, "window_ns": []int64{tsList[a], tsList[b]}})
+						break
+					}
 				}
 			}
 		}
